@@ -152,7 +152,14 @@ def main(argv=None) -> int:
         known_keys = {k["key"] for k in known}
         unknown = [f for f in ctx.prop_fails if f["key"] not in known_keys]
         if broken and not unknown and hasattr(mod, "search"):
-            mod.search(ctx)
+            try:
+                mod.search(ctx)
+            except InfraError:
+                raise
+            except Exception as e:  # noqa: BLE001 - the deeper search choked on what the real code returned
+                tb = traceback.format_exc().strip().splitlines()[-8:]
+                ctx.corr_diff("harness-exception:search", dict(note="the failing-input search was cut short"),
+                              f"{type(e).__name__}: {e}", tb)
             unknown = [f for f in ctx.prop_fails if f["key"] not in known_keys]
     except InfraError as e:
         print(f"INFRA: {e}")
